@@ -339,8 +339,26 @@ def build(repo=None):
                         for s1, acc in cur:
                             s1 = s1.clone()
                             s1.env[gen.target.id] = mbr
-                            for s2, v in e.ev(node.elt, s1):
-                                nxt.append((s2, acc + [v]))
+                            # the comprehension's own filters decide, member by member, whether the element is produced at all
+                            keep_states = [(s1, True)]
+                            for cnd in gen.ifs:
+                                ks2 = []
+                                for s_k, keep in keep_states:
+                                    if not keep:
+                                        ks2.append((s_k, False))
+                                        continue
+                                    for s_c, cv in e.ev(cnd, s_k):
+                                        if is_raised(cv):
+                                            raise Unsupported("a comprehension filter that raises")
+                                        for s_b, holds in e.branch(s_c, e.truth(s_c, cv)):
+                                            ks2.append((s_b, bool(holds)))
+                                keep_states = ks2
+                            for s_k, keep in keep_states:
+                                if not keep:
+                                    nxt.append((s_k, acc))
+                                    continue
+                                for s2, v in e.ev(node.elt, s_k):
+                                    nxt.append((s2, acc + [v]))
                         cur = nxt
                     return [(s1, Tup(acc, True)) for s1, acc in cur]
                 return []
